@@ -17,7 +17,9 @@ LANG_EXT = {
     "JavaScript": "js",
     "TypeScript": "ts",
 }
-SEGMENTS = ["src", "lib", "a", "ab", "abc", "a.b", "core", "util", "pkg", "x1", "app", "b"]
+# ordinary names, shared prefixes, and names whose first character sorts before '.' / after letters
+SEGMENTS = ["src", "lib", "a", "ab", "abc", "a.b", "core", "util", "pkg", "x1", "app", "b",
+            "-legacy", "(group)", "#tmp", "+x", " sp", "!a", "$v", ",c", "_p", "~t", "Z", "0d", "a-b", "a b"]
 STEMS = ["main", "a", "util", "index", "mod", "x", "ab", "core"]
 BOUNDARY = [1, 2, 14, 15, 16, 17, 29, 30, 31, 32, 59, 60, 61, 62, 100]
 
